@@ -30,7 +30,8 @@ ISOLATE = True
 BUDGET = {'quick': (16, 160), 'thorough': (16, 3000)}
 RULE = ('history = up to 6 constant definitions (gin.constant over modules {a,b,a.b,b.a,c.a.b,c} x '
         'leaves {K,L,k} plus E.A-like names, constants_from_enum over modules {e,a,a.e} x classes '
-        '{E,F}, invalid names, duplicates) followed by 1-4 parse_config calls (string / list / '
+        '{E,F} with members from {A,B,K}, 0-2 aliases from {C,R,k}, Enum or IntEnum, module given '
+        'or defaulted; invalid names, duplicates) followed by 1-4 parse_config calls (string / list / '
         'parse_config_file / include / include in the middle of a text) of 2-7 statements: macro '
         'definitions over 2-4 names from {m,n,M,k_1,s/m,s/n,t/s/m,t/m,S/m} whose value is a '
         'literal, %macro (only to later names of the case order: no cycles), %constant-suffix, '
@@ -86,6 +87,9 @@ ASSUMPTIONS = [
     'an earlier one keeps the earlier position and takes the later value)',
     'gin.finalize(), accepted or rejected, is not a use: it must not run the counter '
     'configurables that macros are bound to',
+    'constants_from_enum makes one constant per name of the enum, aliases included '
+    '(module.Class.ALIAS yields the member it is another name of); alias names never repeat a '
+    'member name',
     'an include statement is in-place inclusion every time it is executed, however often the '
     'same file was included before',
     'gin.clear_config() (default clear_constants=False, documented to keep constants) empties '
@@ -123,7 +127,8 @@ FLOORS = {'nontrivial': (0.3, _H), 'nt:use-before-def': (0.15, _H),
           'lock:finalized-mid-history': (0.05, _H),
           'lock:rebound-under-unlock-rechecked': (0.02, _H),
           'use:several-reference-keys-checked': (0.05, _H),
-          'finalize:counter-macros-not-evaluated': (0.1, _H)}
+          'finalize:counter-macros-not-evaluated': (0.1, _H),
+          'const:enum-with-alias': (0.05, _H), 'const:enum-alias-checked': (0.03, _H)}
 TECHNIQUE = ('model-based property testing: Hypothesis-generated parse/define/use histories against '
              'a last-writer-wins reference map, identity checks for constants, plus an exhaustive '
              'sweep of ordered constant-name pairs')
@@ -176,6 +181,7 @@ BAD_NAMES = ['', '.', 'K.', '.K', 'a..K', '1K', 'a.1K', 'a/K', 'a K', 'a-K', '%K
 ENUM_MODS = ['e', 'a', 'a.e']
 ENUM_CLASSES = ['E', 'F']
 ENUM_MEMBERS = ['A', 'B', 'K']
+ENUM_ALIASES = ['C', 'R', 'k']      # alias member names ('k' is also a plain constant leaf)
 
 _small = st.integers(0, 7)
 _lit = st.one_of(
@@ -301,6 +307,10 @@ _const_op = st.one_of(
     st.tuples(st.just('iblock'), st.integers(0, 3), _small),
     st.tuples(st.just('enum'), st.sampled_from(ENUM_MODS), st.sampled_from(ENUM_CLASSES),
               st.lists(st.sampled_from(ENUM_MEMBERS), min_size=1, max_size=3, unique=True),
+              st.booleans(),
+              # aliases: [alias name, index of the member it is another name of]; IntEnum or Enum
+              st.lists(st.tuples(st.sampled_from(ENUM_ALIASES), _small).map(list), min_size=0,
+                       max_size=2, unique_by=lambda a: a[0]),
               st.booleans()),
 ).map(list)
 
@@ -427,6 +437,7 @@ class Model:
     self.pos = 0
     self.clears = 0        # clear_config() calls so far
     self.deflog = []       # macro names in the order they were (re)bound since the last clear
+    self.alias_names = set()   # complete names of constants made from enum aliases
     self.locked = False    # a finalize succeeded and no clear_config came since
     self.checked_locked = set()   # macros whose use was checked while the config was locked
     self.rebound_unlocked = set()  # ... and that were re-bound under unlock_config afterwards
@@ -612,7 +623,8 @@ def render(node):
 class Matcher:
   """Compares a delivered value with an expectation tree."""
 
-  def __init__(self, seen, labels):
+  def __init__(self, seen, labels, alias_names=()):
+    self.alias_names = alias_names
     self.seen = seen          # counter tag -> set of values delivered so far in this case
     self.labels = labels
     self.checked_macros = set()
@@ -633,6 +645,8 @@ class Matcher:
     elif kind == 'is':
       self.checked_consts += 1
       self.labels.add('const:by-complete-name' if exp[1] == exp[2] else 'const:by-proper-suffix')
+      if exp[2] in self.alias_names:
+        self.labels.add('const:enum-alias-checked')
       require(got is exp[3], 'constant-identity',
               lambda: f'{path}: %{exp[1]} delivered {got!r} (id {id(got)}), not the object '
                       f'defined as {exp[2]!r}: {exp[3]!r} (id {id(exp[3])})')
@@ -902,18 +916,25 @@ def _define_constants(case, model, labels):
       _iblock(model, labels, op[1], op[2])
       continue
     if kind == 'enum':
-      _, module, cls_name, members, explicit = op
-      fulls = [f'{module}.{cls_name}.{m}' for m in members]
+      _, module, cls_name, members, explicit = op[:5]
+      aliases = [(a, t % len(members)) for a, t in (op[5] if len(op) > 5 else [])
+                 if a not in members]
+      base = enum.IntEnum if len(op) > 6 and op[6] else enum.Enum
+      # definition order: the members (values 1..n), then the aliases (a value used before)
+      pairs = [(m, i + 1) for i, m in enumerate(members)] + [(a, t + 1) for a, t in aliases]
+      all_names = [n for n, _ in pairs]
+      fulls = [f'{module}.{cls_name}.{m}' for m in all_names]
       hits = [bool(c_match(names, f)) for f in fulls]
       ext = [any(f.endswith('.' + n) for n in names) for f in fulls]
       if any(hits) and not hits[0]:
         raise OutOfDomain('enum partly colliding with existing constants')
       if explicit:
-        cls = enum.Enum(cls_name, members, module='c05.unused')
+        cls = base(cls_name, pairs, module='c05.unused')
         deco = lambda c, module=module: gin.constants_from_enum(module=module)(c)
       else:
-        cls = enum.Enum(cls_name, members, module=module)
+        cls = base(cls_name, pairs, module=module)
         deco = gin.constants_from_enum
+      members = all_names
       try:
         res = deco(cls)
       except ValueError:
@@ -930,8 +951,13 @@ def _define_constants(case, model, labels):
                       f'{fulls[0]!r} matches {c_match(names, fulls[0])}')
       require(res is cls, 'enum-decorator-not-identity', repr(res))
       for f, m in zip(fulls, members):
-        model.consts[f] = cls[m]
+        model.consts[f] = cls[m]     # for an alias: the member it is another name of
+      model.alias_names.update(f'{module}.{cls_name}.{a}' for a, _ in aliases)
       labels.add('const:enum')
+      if aliases:
+        labels.add('const:enum-with-alias')
+      if base is enum.IntEnum:
+        labels.add('const:int-enum')
       continue
     raise OutOfDomain(f'unknown constant op {kind!r}')
 
@@ -997,7 +1023,7 @@ def _observe(model, seen, labels, when, stats):
                       f'{when}: calling {PROBES[p]} with bindings {texts} raised '
                       f'{type(e).__name__}: {str(e)[:200]!r} although every macro it reaches is '
                       f'bound ({bound}) and every constant defined')
-    m = Matcher(seen, labels)
+    m = Matcher(seen, labels, model.alias_names)
     for a in PARAMS:
       if a in exp:
         m.match(exp[a], got[a], f'{when}: {PROBES[p]}.{a}')
